@@ -759,6 +759,197 @@ struct ExecutionParams<T: Unsigned> {
     execution_price: T,
 }
 
+/// Public entries to the private steps of [`DecreasePosition`] and to the crate-private
+/// collateral processor, used only by the solver-based checks in `/verif`
+/// (`--cfg gmsol_verif`). Thin wrappers: no behaviour of their own.
+#[cfg(gmsol_verif)]
+pub mod verif_hooks {
+    use super::collateral_processor::{CollateralProcessor, ProcessResult};
+    use super::*;
+    use crate::{params::fee::FundingFees, position::InsolventCloseStep};
+
+    impl<const DECIMALS: u8, P: PositionMut<DECIMALS>> DecreasePosition<P, DECIMALS>
+    where
+        P::Market: PerpMarketMut<DECIMALS, Num = P::Num, Signed = P::Signed>,
+    {
+        /// See `check_partial_close`.
+        pub fn verif_check_partial_close(&mut self) -> crate::Result<()> {
+            self.check_partial_close()
+        }
+
+        /// See `check_close`.
+        pub fn verif_check_close(&mut self) -> crate::Result<()> {
+            self.check_close()
+        }
+
+        /// See `check_liquidation`.
+        pub fn verif_check_liquidation(&self) -> crate::Result<()> {
+            self.check_liquidation()
+        }
+
+        /// See `is_remaining_size_too_small`.
+        pub fn verif_is_remaining_size_too_small(
+            &self,
+            min_position_size_usd: &P::Num,
+        ) -> crate::Result<bool> {
+            self.is_remaining_size_too_small(min_position_size_usd)
+        }
+
+        /// Current (possibly capped / promoted) size delta.
+        pub fn verif_size_delta_usd(&self) -> &P::Num {
+            &self.size_delta_usd
+        }
+
+        /// Current withdrawable collateral amount.
+        pub fn verif_withdrawable_collateral_amount(&self) -> &P::Num {
+            &self.withdrawable_collateral_amount
+        }
+
+        /// Params (flags after `init`).
+        pub fn verif_params(&self) -> &DecreasePositionParams<P::Num> {
+            &self.params
+        }
+
+        /// The position.
+        pub fn verif_position(&self) -> &P {
+            &self.position
+        }
+    }
+
+    /// Public mirror of the private `ProcessResult`.
+    #[derive(Debug, Clone, Copy)]
+    pub struct VerifProcessResult<T> {
+        /// Output amount.
+        pub output_amount: T,
+        /// Secondary output amount.
+        pub secondary_output_amount: T,
+        /// Remaining collateral amount.
+        pub remaining_collateral_amount: T,
+        /// Claimable collateral for holding.
+        pub for_holding: ClaimableCollateral<T>,
+        /// Claimable collateral for user.
+        pub for_user: ClaimableCollateral<T>,
+        /// Insolvent close step.
+        pub insolvent_close_step: Option<InsolventCloseStep>,
+    }
+
+    impl<T> From<ProcessResult<T>> for VerifProcessResult<T> {
+        fn from(r: ProcessResult<T>) -> Self {
+            Self {
+                output_amount: r.output_amount,
+                secondary_output_amount: r.secondary_output_amount,
+                remaining_collateral_amount: r.remaining_collateral_amount,
+                for_holding: r.for_holding,
+                for_user: r.for_user,
+                insolvent_close_step: r.insolvent_close_step,
+            }
+        }
+    }
+
+    /// One step of the collateral processor.
+    pub enum VerifStep<'a, T: Unsigned> {
+        /// `add_pnl_if_positive`.
+        AddPnlIfPositive(&'a T::Signed),
+        /// `add_price_impact_if_positive`.
+        AddPriceImpactIfPositive(&'a T::Signed),
+        /// `pay_for_funding_fees`.
+        PayForFundingFees(&'a FundingFees<T>),
+        /// `pay_for_pnl_if_negative`.
+        PayForPnlIfNegative(&'a T::Signed),
+        /// `pay_for_fees_excluding_funding`.
+        PayForFeesExcludingFunding(&'a mut PositionFees<T>),
+        /// `pay_for_price_impact_if_negative`.
+        PayForPriceImpactIfNegative(&'a T::Signed),
+        /// `pay_for_price_impact_diff`.
+        PayForPriceImpactDiff(&'a T),
+    }
+
+    /// Run the given steps of the real collateral processor, in order, from the given
+    /// intermediate amounts.
+    #[allow(clippy::too_many_arguments)]
+    pub fn verif_process<M, const DECIMALS: u8, const N: usize>(
+        market: &mut M,
+        is_output_token_long: bool,
+        is_pnl_token_long: bool,
+        are_pnl_and_collateral_tokens_the_same: bool,
+        prices: &Prices<M::Num>,
+        remaining_collateral_amount: M::Num,
+        output_amount: M::Num,
+        secondary_output_amount: M::Num,
+        is_insolvent_close_allowed: bool,
+        steps: [VerifStep<'_, M::Num>; N],
+    ) -> crate::Result<VerifProcessResult<M::Num>>
+    where
+        M: PerpMarketMut<DECIMALS>,
+    {
+        let processor = CollateralProcessor::verif_new_with_amounts(
+            market,
+            is_output_token_long,
+            is_pnl_token_long,
+            are_pnl_and_collateral_tokens_the_same,
+            prices,
+            remaining_collateral_amount,
+            output_amount,
+            secondary_output_amount,
+            is_insolvent_close_allowed,
+        );
+        let result = processor.process(|mut ctx| {
+            for step in steps {
+                match step {
+                    VerifStep::AddPnlIfPositive(v) => {
+                        ctx.add_pnl_if_positive(v)?;
+                    }
+                    VerifStep::AddPriceImpactIfPositive(v) => {
+                        ctx.add_price_impact_if_positive(v)?;
+                    }
+                    VerifStep::PayForFundingFees(v) => {
+                        ctx.pay_for_funding_fees(v)?;
+                    }
+                    VerifStep::PayForPnlIfNegative(v) => {
+                        ctx.pay_for_pnl_if_negative(v)?;
+                    }
+                    VerifStep::PayForFeesExcludingFunding(v) => {
+                        ctx.pay_for_fees_excluding_funding(v)?;
+                    }
+                    VerifStep::PayForPriceImpactIfNegative(v) => {
+                        ctx.pay_for_price_impact_if_negative(v)?;
+                    }
+                    VerifStep::PayForPriceImpactDiff(v) => {
+                        ctx.pay_for_price_impact_diff(v)?;
+                    }
+                }
+            }
+            Ok(())
+        })?;
+        Ok(result.into())
+    }
+
+    /// See `utils::get_execution_price_for_decrease`.
+    pub fn verif_get_execution_price_for_decrease<T>(
+        index_price: &Price<T>,
+        size_in_usd: &T,
+        size_in_tokens: &T,
+        size_delta_usd: &T,
+        price_impact_value: &T::Signed,
+        acceptable_price: Option<&T>,
+        is_long: bool,
+    ) -> crate::Result<T>
+    where
+        T: Clone + MulDiv + Ord + CheckedAdd + CheckedSub,
+        T::Signed: CheckedSub + Clone + Ord + crate::num::UnsignedAbs + CheckedDiv,
+    {
+        super::utils::get_execution_price_for_decrease(
+            index_price,
+            size_in_usd,
+            size_in_tokens,
+            size_delta_usd,
+            price_impact_value,
+            acceptable_price,
+            is_long,
+        )
+    }
+}
+
 #[cfg(test)]
 mod tests {
     use crate::{
